@@ -223,6 +223,30 @@ def oracle_regs(rng, n, R):
                         R.fail(key0 + ":reduction", "'mean'/'sum' are not the mean/sum of 'none'", **base)
                 except Exception as e:  # noqa
                     R.fail(key0 + ":raises", f"raises {type(e).__name__}: {str(e)[:140]}", **base)
+        # quadratic fields: nested central differences reproduce the (constant) second derivatives two samples inside
+        R.tick("quadratic")
+        try:
+            x = coords(size)
+            H = [[[0.0] * D for _ in range(D)] for _ in range(D)]
+            uq = torch.zeros_like(x)
+            for c in range(D):
+                for d in range(D):
+                    for e in range(d, D):
+                        hde = rng.choice([-1.0, 0.5, 0.0, 2.0])
+                        H[c][d][e] = H[c][e][d] = hde
+                        uq[0, c] += (0.5 if d == e else 1.0) * hde * x[0, d] * x[0, e]
+            Hs = [[[H[c][d][e] / (spacing[d] * spacing[e]) for e in range(D)] for d in range(D)] for c in range(D)]
+            wb = sum(Hs[c][d][e] ** 2 for c in range(D) for d in range(D) for e in range(D))
+            wc = 0.5 * sum(sum(Hs[c][d][d] for d in range(D)) ** 2 for c in range(D))
+            for mode in ("fcb", "sobel"):
+                vb = interior(call("bending", uq, mode, spacing, "none"), 2)
+                vc = interior(call("curvature", uq, mode, spacing, "none"), 2)
+                if vb.numel() and not close(vb, torch.full_like(vb, wb), 1e-8):
+                    R.fail(f"C17:bending_loss:{mode}:quadratic-value", f"bending of a quadratic field is {float(vb.reshape(-1)[0]):.6g}, analytic value {wb:.6g}", H=H, **base)
+                if vc.numel() and not close(vc, torch.full_like(vc, wc), 1e-8):
+                    R.fail(f"C17:curvature_loss:{mode}:quadratic-value", f"curvature of a quadratic field is {float(vc.reshape(-1)[0]):.6g}, analytic value {wc:.6g}", H=H, **base)
+        except Exception as e:  # noqa
+            R.fail("C17:bending_loss:quadratic:raises", f"raises {type(e).__name__}: {str(e)[:140]}", **base)
         # linear transformations yield zero
         R.tick("linear")
         lin = torch.tensor([[1.0, 0.2, 3.0], [0.1, 0.9, -2.0]]) if D == 2 else torch.eye(3, 4)
